@@ -30,6 +30,7 @@ ASSUMPTIONS = [
     "GETINFO keys are distinct within a call and never contain '=' or white space",
     "multi-line values are requested alone (statement: 'of a single requested key')",
     "in 20% of the random cases one or two earlier calls (plain / per-line / incremental, answered 2xx or 5xx) were made and answered on the same connection first; they must not change the result",
+    "'pipelined' cases make 2-4 calls back to back so that all are outstanding at once; each must get exactly its own result",
     "in 30% of the random cases an unsubscribed 650 event (single / multi-line / data form) is delivered between the command and its reply; it must not change the result",
 ]
 TRUSTED_BASE = ["vf.refs.reply", "vf.ctl.Session"]
@@ -39,7 +40,7 @@ ANCHORS = ["txtorcon.torcontrolprotocol:parse_keywords", "txtorcon.torcontrolpro
            "txtorcon.torcontrolprotocol:TorControlProtocol.get_conf",
            "txtorcon.torcontrolprotocol:TorControlProtocol.get_conf_single",
            "txtorcon.torcontrolprotocol:TorControlProtocol._accumulate_multi_response"]
-FLOORS = {"quick": {"evaluations": 3000, "results_compared": 3000, "earlier_calls_on_same_connection": 800, "reach:txtorcon.torcontrolprotocol:parse_keywords": 3000},
+FLOORS = {"quick": {"evaluations": 3000, "results_compared": 3000, "earlier_calls_on_same_connection": 800, "results_of_calls_outstanding_together": 1000, "reach:txtorcon.torcontrolprotocol:parse_keywords": 3000},
           "thorough": {"evaluations": 40000, "results_compared": 40000}}
 
 ALPHA = ["a", "=", " ", '"', "'", "2", "5", "0", ".", "O", "K"]
@@ -141,6 +142,47 @@ def do_prior(s, kind, rec):
     return None
 
 
+def prepare(case):
+    """-> (api, call arguments, command line, reply, acceptable results, input class)"""
+    api = case["api"]
+    if api in ("get_info", "get_info_single"):
+        keys = case["keys"]
+        vals = case["values"]
+        parts = []
+        if case.get("multiline"):
+            parts.append(("data", keys[0] + "=", list(vals[0])))
+            icls = lines_class(vals[0], keys[0])
+            joined = "\n".join(vals[0])
+            want_ok = [{keys[0]: joined}, {keys[0]: "\n" + joined}]
+        else:
+            for k, v in zip(keys, vals):
+                parts.append(("mid", "%s=%s" % (k, v)))
+            icls = value_class(vals)
+            want_ok = [dict(zip(keys, vals))]
+        parts.append(("end", "OK"))
+        cmd = "GETINFO " + " ".join(keys)
+        callkeys = keys
+        if api == "get_info_single":
+            want_ok = [w[keys[0]] for w in want_ok]
+    else:
+        key = case["keys"][0]
+        vals = case["values"]          # None = unset, else list of str (>=1)
+        if vals is None:
+            parts = [("end", key)]
+            want = "DEFAULT"
+        else:
+            ls = ["%s=%s" % (key, v) for v in vals]
+            parts = [("mid", l) for l in ls[:-1]] + [("end", ls[-1])]
+            want = vals[0] if len(vals) == 1 else list(vals)
+        icls = value_class(vals or [])
+        if vals is None:
+            icls = "unset"
+        cmd = "GETCONF " + key
+        callkeys = [key]
+        want_ok = [want] if api == "get_conf_single" else [{key: want}]
+    return api, callkeys, cmd, (250, parts), want_ok, icls
+
+
 def run_case(case, rec, ctx):
     api = case["api"]
     chunking = case.get("chunking") or [1 << 30]
@@ -159,41 +201,8 @@ def run_case(case, rec, ctx):
             rec.case(case)
             ctx.s = None
             return
-    if api in ("get_info", "get_info_single"):
-        keys = case["keys"]
-        vals = case["values"]
-        parts = []
-        if case.get("multiline"):
-            parts.append(("data", keys[0] + "=", list(vals[0])))
-            icls = lines_class(vals[0], keys[0])
-            joined = "\n".join(vals[0])
-            want_ok = [{keys[0]: joined}, {keys[0]: "\n" + joined}]
-        else:
-            for k, v in zip(keys, vals):
-                parts.append(("mid", "%s=%s" % (k, v)))
-            icls = value_class(vals)
-            want_ok = [dict(zip(keys, vals))]
-        parts.append(("end", "OK"))
-        cmd = "GETINFO " + " ".join(keys)
-        o, exc = call(s, api, keys, (250, parts), cmd, case.get("event"))
-        if api == "get_info_single":
-            want_ok = [w[keys[0]] for w in want_ok]
-    else:
-        key = case["keys"][0]
-        vals = case["values"]          # None = unset, else list of str (>=1)
-        if vals is None:
-            parts = [("end", key)]
-            want = "DEFAULT"
-        else:
-            ls = ["%s=%s" % (key, v) for v in vals]
-            parts = [("mid", l) for l in ls[:-1]] + [("end", ls[-1])]
-            want = vals[0] if len(vals) == 1 else list(vals)
-        icls = value_class(vals or [])
-        if vals is None:
-            icls = "unset"
-        cmd = "GETCONF " + key
-        o, exc = call(s, api, [key], (250, parts), cmd, case.get("event"))
-        want_ok = [want] if api == "get_conf_single" else [{key: want}]
+    api, callkeys, cmd, reply, want_ok, icls = prepare(case)
+    o, exc = call(s, api, callkeys, reply, cmd, case.get("event"))
     rec.case(case)
     errs = s.log.take()
     if exc is not None or len(s.exceptions) > nexc:
@@ -212,11 +221,92 @@ def run_case(case, rec, ctx):
         rec.violation("value-mismatch", icls, {"want": want_ok[0], "got": o.value, "logged": errs}, case)
 
 
+def run_pipelined(case, rec, ctx):
+    """several calls made back to back, all outstanding at once, answered in order"""
+    s = ctx.session(case.get("chunking") or [1 << 30])
+    rec.case(case)
+    if s.boot_failed:
+        rec.violation("bootstrap-failed", "bootstrap", {"exc": s.exceptions}, case)
+        ctx.s = None
+        return
+    nexc = len(s.exceptions)
+    s.log.take()
+    prepared = [prepare(c) for c in case["calls"]]
+    for line in {p[2] for p in prepared}:
+        s.replies.pop(line.encode("ascii"), None)
+        s.served.pop(line.encode("ascii"), None)
+    outs = []
+    for (api, callkeys, cmd, reply, want_ok, icls) in prepared:
+        s.set_reply(cmd.encode("ascii"), reply, append=True)
+        try:
+            outs.append(s.aud.watch(getattr(s.proto, api)(*callkeys), api))
+        except Exception as e:
+            rec.violation("exception", icls + "+calls-outstanding-together", {"exc": repr(e)}, case)
+            ctx.s = None
+            return
+    s.run()
+    errs = s.log.take()
+    if len(s.exceptions) > nexc:
+        rec.violation("exception", "general+calls-outstanding-together", {"escaped": s.exceptions[nexc:]}, case)
+        ctx.s = None
+        return
+    for o, (api, callkeys, cmd, reply, want_ok, icls) in zip(outs, prepared):
+        if icls in ("general", "unset"):
+            icls += "+calls-outstanding-together"     # structural classes with a recorded mechanism keep their key
+        if not o.fired:
+            rec.violation("result-never-delivered", icls, {"logged": errs}, case)
+            ctx.s = None
+            return
+        rec.count("results_compared")
+        rec.count("results_of_calls_outstanding_together")
+        if not o.ok:
+            rec.violation("call-failed", icls, {"got": o.describe(), "logged": errs}, case)
+        elif o.value not in want_ok:
+            rec.violation("value-mismatch", icls, {"want": want_ok[0], "got": o.value, "logged": errs}, case)
+
+
 def short_values(maxlen):
     out = [""]
     for n in range(1, maxlen + 1):
         out.extend("".join(t) for t in itertools.product(ALPHA, repeat=n))
     return out
+
+
+def gen_call(rnd, edge=False):
+    r = rnd.random()
+    txt = lambda: gen.text(rnd, maxlen=40, edge=False, dots=True)    # noqa
+    if r < 0.3:
+        n = rnd.randint(1, 4)
+        case = {"api": "get_info", "keys": rnd.sample(INFO_KEYS, n),
+                "values": [gen.text(rnd, maxlen=40, dots=False) for _ in range(n)]}
+    elif r < 0.4:
+        case = {"api": "get_info_single", "keys": [rnd.choice(INFO_KEYS)],
+                "values": [gen.text(rnd, maxlen=60, dots=False)]}
+    elif r < 0.65:
+        k = rnd.choice(INFO_KEYS)
+        nl = rnd.choice([1, 2, 3, 5, rnd.randint(1, 12)])
+        lines = []
+        for _ in range(nl):
+            q = rnd.random()
+            if q < 0.15:
+                lines.append(rnd.choice(["other=1", "x/y=z", "k v=w", "250 OK", "650 X", "=", ".", "..", "...", "", ".x"]))
+            elif q < 0.18 and edge:
+                lines.append(rnd.choice([k + "=again", "OK", " ."]))
+            else:
+                lines.append(txt())
+        case = {"api": rnd.choice(["get_info", "get_info_single"]), "keys": [k],
+                "values": [lines], "multiline": True}
+    else:
+        k = rnd.choice(CONF_KEYS)
+        q = rnd.random()
+        if q < 0.2:
+            vals = None
+        elif q < 0.35:
+            vals = [""]
+        else:
+            vals = [gen.text(rnd, maxlen=30, dots=False) for _ in range(rnd.choice([1, 1, 2, 3, 4, 5]))]
+        case = {"api": rnd.choice(["get_conf", "get_conf_single"]), "keys": [k], "values": vals}
+    return case
 
 
 def run_shard(spec, rec):
@@ -245,42 +335,18 @@ def run_shard(spec, rec):
             if i < 3:
                 rec.sample(case)
         rec.enumerated("all values of length <=%d over {a,=,SP,\",',2,5,0,.,O,K}" % spec["maxlen"])
+    elif mode == "pipelined":
+        for i in range(spec["n"]):
+            rnd = gen.rnd_for(spec["seed"], "C13p", spec["shard"], i)
+            case = {"pipelined": True, "calls": [gen_call(rnd) for _ in range(rnd.choice([2, 2, 3, 4]))],
+                    "chunking": gen.chunking(rnd)}
+            run_pipelined(case, rec, ctx)
+            if i < 2:
+                rec.sample(case)
     elif mode == "random":
         for i in range(spec["n"]):
             rnd = gen.rnd_for(spec["seed"], "C13", spec["shard"], i)
-            r = rnd.random()
-            txt = lambda: gen.text(rnd, maxlen=40, edge=False, dots=True)    # noqa
-            if r < 0.3:
-                n = rnd.randint(1, 4)
-                case = {"api": "get_info", "keys": rnd.sample(INFO_KEYS, n),
-                        "values": [gen.text(rnd, maxlen=40, dots=False) for _ in range(n)]}
-            elif r < 0.4:
-                case = {"api": "get_info_single", "keys": [rnd.choice(INFO_KEYS)],
-                        "values": [gen.text(rnd, maxlen=60, dots=False)]}
-            elif r < 0.65:
-                k = rnd.choice(INFO_KEYS)
-                nl = rnd.choice([1, 2, 3, 5, rnd.randint(1, 12)])
-                lines = []
-                for _ in range(nl):
-                    q = rnd.random()
-                    if q < 0.15:
-                        lines.append(rnd.choice(["other=1", "x/y=z", "k v=w", "250 OK", "650 X", "=", ".", "..", "...", "", ".x"]))
-                    elif q < 0.18 and spec.get("edge"):
-                        lines.append(rnd.choice([k + "=again", "OK", " ."]))
-                    else:
-                        lines.append(txt())
-                case = {"api": rnd.choice(["get_info", "get_info_single"]), "keys": [k],
-                        "values": [lines], "multiline": True}
-            else:
-                k = rnd.choice(CONF_KEYS)
-                q = rnd.random()
-                if q < 0.2:
-                    vals = None
-                elif q < 0.35:
-                    vals = [""]
-                else:
-                    vals = [gen.text(rnd, maxlen=30, dots=False) for _ in range(rnd.choice([1, 1, 2, 3, 4, 5]))]
-                case = {"api": rnd.choice(["get_conf", "get_conf_single"]), "keys": [k], "values": vals}
+            case = gen_call(rnd, spec.get("edge"))
             case["chunking"] = gen.chunking(rnd)
             if rnd.random() < 0.2:
                 case["before"] = [rnd.choice(sorted(PRIOR)) for _ in range(rnd.choice([1, 1, 2]))]
@@ -297,14 +363,18 @@ def run_shard(spec, rec):
 
 
 def replay(case, rec):
+    if case.get("pipelined"):
+        return run_pipelined(case, rec, Ctx())
     run_case(case, rec, Ctx())
 
 
 def plan(tier, seed):
     if tier == "quick":
         sp = [{"mode": "exhaustive", "maxlen": 3, "part": i, "of": 5} for i in range(5)]
-        sp += [{"mode": "random", "n": 700, "edge": i == 0} for i in range(10)]
+        sp += [{"mode": "random", "n": 700, "edge": i == 0} for i in range(9)]
+        sp += [{"mode": "pipelined", "n": 300} for _ in range(2)]
     else:
         sp = [{"mode": "exhaustive", "maxlen": 4, "part": i, "of": 8} for i in range(8)]
         sp += [{"mode": "random", "n": 20000, "edge": i < 3} for i in range(12)]
+        sp += [{"mode": "pipelined", "n": 8000} for _ in range(4)]
     return sp
